@@ -34,6 +34,8 @@ C = {
          "exhaustive fault / hostile-input enumeration over bounded string families on the implementation (outcome-class oracle, subprocess supervision)"),
  "C15": ("Full cross products of boundary alphabets for every fallible constructor and all 10 setters, complete 2^32 sweeps of Time::from_seconds and Offset::from_seconds; Ok iff reference-valid and reads back its arguments, Err is OutOfRange, and a stated range is checked against the set of values the real function accepts for the named parameter.",
          "exhaustive enumeration of boundary-alphabet cross products and complete u32/i32 argument axes on the implementation, validity oracle"),
+ "C20": ("Display, FromStr and serde_json round trips on every day of seven windows, landmarks and a day lattice (all 2^32 days thorough) for Date, all 86 400 seconds x 27 offsets for Time, every 23rd day (every day thorough) of years 1..=9999 x 2 times x 3 offsets and boundary instants x all 2 879 whole-minute offsets for DateTime; malformed side: every string of length <= 4 over a 16-symbol alphabet and every truncation / single / double substitution of four templates through Deserialize for all three types (serde error, never a panic).",
+         "exhaustive enumeration of value and bounded document spaces on the implementation, reference-rendering and round-trip oracle"),
 }
 LEVEL = {"C14": "fault_enumeration", "C19": "fault_enumeration"}
 NA_REASON = "check not built yet in this revision of the harness (planned: bounded exhaustive exploration, DESIGN.md §5)"
